@@ -223,3 +223,9 @@ def run(ck):
     hexw = any(any((a.get("t") or "").endswith("std::hex") or (a.get("t") or "") == "std::hex" for a in args)
                for _e, args in lib.flat_calls(prog, wrt, lambda g_: g_.is_lambda or g_.cls == H + "ResponseStream"))
     ck.ob("C02-R4", "chunk-size:hex-vs-base16", bool(rd16) and hexw, cp.loc, cp, "written with std::hex, read with strtol(..., 16)")
+
+    # ---------------- facts shared with C01 ----------------
+    ck.borrow("C01", ["C01-R3"], "C02-R5",
+              "a Content-Length or chunked body that reaches the receiving parser in several reads is completed: the progress counter of the "
+              "body routine advances by what was appended before the routine asks for more, and is cleared only when the body is done -- "
+              "otherwise a message longer than one read never round-trips", min_instances=5)
